@@ -1031,3 +1031,63 @@ fn c15_validator_choice() {
         }
     }
 }
+
+// =============================================================================================
+// C10: releasing a streamed entry resynchronises the stream (drop-time drain)
+// =============================================================================================
+macro_rules! c10_drain {
+    ($name:ident, $p:expr, $cons:expr, $short:expr) => {
+        #[kani::proof]
+        #[kani::unwind(8)]
+        #[kani::stub(crc32fast::Hasher::internal_new_specialized, crate::verif_kit::stub_crc_specialized)]
+        #[kani::stub(core::fmt::write, crate::verif_kit::stub_fmt_write)]
+        fn $name() {
+            const P: usize = $p;
+            const CONS: usize = $cons;
+            const N: usize = 16;
+            let b: [u8; N] = kani::any();
+            // the underlying stream delivers ONE byte per read call when $short (a reader that
+            // splits its reads), everything at once otherwise
+            let mut src = Src::<N>::with_env(b, N, if $short { Env::short(0) } else { Env::quiet() });
+            src.pos = 2; // entry data occupies [2, 2 + P)
+            let mut data = zfd_for_extra(Vec::new(), P as u32, P as u32, 0, 0);
+            data.crc32 = kani::any();
+            {
+                // the entry as read_zipfile_from_stream hands it out: owned metadata, plaintext
+                // reader limited to the compressed size
+                let take = (&mut src as &mut dyn Read).take(P as u64);
+                let mut f = ZipFile { data: Cow::Owned(data), crypto_reader: Some(CryptoReader::Plaintext(take)), reader: ZipFileReader::NoReader };
+                let mut n = 0;
+                while n < CONS {
+                    let mut one = [0u8; 1];
+                    match f.read(&mut one) {
+                        Ok(m) => {
+                            assert_eq!(m, 1);
+                            assert_eq!(one[0], b[2 + n]);
+                        }
+                        Err(e) => {
+                            core::mem::forget(e);
+                            assert!(false, "read failed");
+                        }
+                    }
+                    n += 1;
+                }
+                // `f` is released here: Drop drains what the consumer left unread
+            }
+            assert_eq!(src.pos, 2 + P, "stream not positioned at the next record after releasing the entry");
+            kani::cover!(true);
+        }
+    };
+}
+/// C10 releasing a streamed entry (the ZipFile read_zipfile_from_stream hands out: owned
+/// metadata, reader limited to the compressed size) after the consumer read NOTHING of its 3
+/// bytes, over an underlying stream that returns one byte per read call: the drop-time drain
+/// consumes exactly the rest, leaving the stream at the first byte after the entry's data.
+// @h prop=C10 tier=quick t=1500 mem=14 name=c10_drain_p3_read0_short uws="fn:^std::ptr::drop_glue::<std::io::Error>$:2"
+c10_drain!(c10_drain_p3_read0_short, 3, 0, true);
+/// C10 as above after the consumer read 1 of 3 bytes (partial consumption), short reads.
+// @h prop=C10 tier=quick t=1500 mem=14 name=c10_drain_p3_read1_short uws="fn:^std::ptr::drop_glue::<std::io::Error>$:2"
+c10_drain!(c10_drain_p3_read1_short, 3, 1, true);
+/// C10 as above, nothing read, the stream never splits its reads.
+// @h prop=C10 tier=dev t=600 mem=8 name=c10_drain_p3_read0 uws="fn:^std::ptr::drop_glue::<std::io::Error>$:2"
+c10_drain!(c10_drain_p3_read0, 3, 0, false);
